@@ -4,6 +4,7 @@ import RcVerif.Spec.KeySlot
 import RcVerif.Model.SimInst
 import RcVerif.Model.Route
 import RcVerif.Model.Cluster
+import RcVerif.Model.Handover
 import RcVerif.Model.AuthIp
 import RcVerif.Model.Elastic
 import RcVerif.Model.ConnIO
@@ -186,6 +187,49 @@ def clusterLine (rest : String) : String :=
         (st', st.sets, outs ++ [s!"tick pools={String.intercalate "," pools} table={showTable st.sets Gen.redisClusterSlots}"])
       else (st, tbl, outs ++ ["tick unchanged"])
     | _ => (st, tbl, outs ++ ["bad-op"])) (({} : Cluster.RState), [], [])
+  String.intercalate " | " outs
+
+/-! ### handover: `handover ev ; ev ...` - the hand-over model at the points where the view can hold the real
+    goroutine / the real ticker: `M <hex>` (reply taken, goroutine runs to the end), `Mh <hex>` (held after
+    `setServer`), `Gc` (released), `K` (a whole tick), `Kh` (held after the flag test), `Ka <0|1>` (held inside the
+    add loop, the removal loop is over - or, `0`, not held: nothing to add), `Kc` (released) -/
+def showHandover (s : Handover.MState) : String :=
+  let servers := (s.r.servers.map showNode).toArray.qsort (· < ·) |>.toList
+  let sets := s.r.sets.map (fun p => toHex p.1.addr ++ ":" ++ String.intercalate "+" (p.2.map (fun n => toHex n.addr)))
+  let settled := s.gpc == .idle && s.tpc == .idle && !s.r.changed
+  let view := if settled then
+      let pools := (s.pools.map (fun p => s!"{toHex p.1}/{if p.2 then 1 else 0}")).toArray.qsort (· < ·) |>.toList
+      s!"pools={String.intercalate "," pools} table={showTable s.table Gen.redisClusterSlots}"
+    else "-"
+  s!"g={if s.gpc == .idle then "idle" else "held"} t={if s.tpc == .idle then "idle" else "held"} changed={if s.r.changed then 1 else 0} servers={String.intercalate "," servers} sets={String.intercalate "," sets} view={view}"
+
+def handoverLine (rest : String) : String :=
+  let evs := ((rest.splitOn ";").map String.trimAscii).map (·.toString) |>.filter (· ≠ "")
+  let rf := Handover.resetFirstNow
+  let go (s : Handover.MState) (es : List Handover.Ev) : Handover.MState :=
+    Handover.run Gen.redisClusterSlots clusterInfo rf s es
+  let (_, outs) := evs.foldl (fun (acc : Handover.MState × List String) ev =>
+    let (s, outs) := acc
+    let r : Option Handover.MState :=
+      match (ev.splitOn " ").filter (· ≠ "") with
+      | ["M", h] => if s.gpc != .idle then none else (fromHex h).map (fun msg => go s [.deliver msg, .g, .g, .g, .g])
+      | ["Mh", h] => if s.gpc != .idle then none else (fromHex h).map (fun msg => go s [.deliver msg, .g, .g])
+      | ["Gc"] => some (go s [.g, .g, .g, .g])
+      | ["K"] => if s.tpc != .idle then none else some (go s [.tick, .t, .t, .t, .t])
+      | ["Kh"] => if s.tpc != .idle then none else some (go s [.tick])
+      | ["Ka", held] =>
+        if s.tpc != .idle then none else
+        -- the view says whether the ticker was held at a pool it had to create (`1`) or ran to its end (`0`);
+        -- a held ticker must have found the flag raised
+        if held == "1" then
+          let s1 := go s [.tick, .t]
+          if s1.tpc == .add then some s1 else none
+        else some (go s [.tick, .t, .t, .t, .t])
+      | ["Kc"] => some (go s [.t, .t, .t, .t])
+      | _ => none
+    match r with
+    | some s' => (s', outs ++ [showHandover s'])
+    | none => (s, outs ++ ["bad-op"])) (({} : Handover.MState), [])
   String.intercalate " | " outs
 
 /-! ### authip: `authip ev ; ev ...` with `W <0/1> <ip,ip|->`, `B` (unreadable), `D` (deleted), `V <ip>`, `A <remote>` -/
@@ -405,6 +449,7 @@ def stepLine (line : String) : String :=
   if line.startsWith "sim " then simLine (line.drop 4).toString else
   if line.startsWith "route " then routeLine (line.drop 6).toString else
   if line.startsWith "cluster " then clusterLine (line.drop 8).toString else
+  if line.startsWith "handover " then handoverLine (line.drop 9).toString else
   if line.startsWith "authip " then authipLine (line.drop 7).toString else
   if line.startsWith "ring " then ringLine (line.drop 5).toString else
   if line.startsWith "llist " then llistLine (line.drop 6).toString else
